@@ -48,10 +48,14 @@ Inductive akind :=
 | AKPreLast                      (* Builder.PrecomputedLastValue *)
 | AKHist (nosum expo : bool).    (* Builder.ExplicitBucketHistogram / ExponentialBucketHistogram: count and sum only *)
 
-(** A view's attribute filter: an allow-list (attribute.NewAllowKeysFilter) or, with the flag set,
-    a deny-list (attribute.NewDenyKeysFilter) of keys. *)
-Definition afilter := (bool * list bytes)%type.
-Definition keeps (f : afilter) (x : kv) : bool := xorb (fst f) (bmem (fst x) (snd f)).
+(** A view's attribute filter (attribute.Filter): ANY predicate on key-values; it may look at the value.
+    The forms the harness uses: key allow-/deny-lists (attribute.NewAllowKeysFilter / NewDenyKeysFilter),
+    value allow-/deny-lists and (key, value) pair allow-/deny-lists (hand-written filter functions). *)
+Definition afilter := kv -> bool.
+Definition keeps (f : afilter) (x : kv) : bool := f x.
+Definition fkeys (deny : bool) (ks : list bytes) : afilter := fun x => xorb deny (bmem (fst x) ks).
+Definition fvals (deny : bool) (vs : list bytes) : afilter := fun x => xorb deny (bmem (snd x) vs).
+Definition fpairs (deny : bool) (ps : list kv) : afilter := fun x => xorb deny (existsb (kv_eqb x) ps).
 
 (** Configuration of one aggregator: kind, reader temporality, cardinality
     limit (0 = unlimited) and the view's attribute filter (allow-list of keys). *)
